@@ -115,7 +115,9 @@ def scale_masses(text, sysw, scale):
     def rep(mm):
         if mm.group(2):
             return mm.group(0)
-        return ".|%r|" % (float(mm.group(1)) * scale)
+        x = float(mm.group(1)) * scale
+        # (every other scaled mass is written with a signed exponent, a form numbers in a specifier may take)
+        return (".|%.12e|" % x) if int(x * 7) % 2 else (".|%r|" % x)
 
     return re.sub(r"\.\|\s*([0-9.eE+\-]+)\s*(%?)\s*\|", rep, text), (None if sysw is None else sysw * scale)
 
